@@ -153,6 +153,10 @@ def measurement_exprs(rng, quick):
             for k in ["2", "0", "1", "-1", "0.5", "1e10", "(1+i)", "i", "(0*i)"]:
                 out += ["6 %s * %s" % (a, k), "%s * 6 %s" % (k, a), "6 %s / %s" % (a, k), "(6 %s / %s) * %s" % (a, k, k),
                         "6 %s * (1/%s)" % (a, k), "-(6 %s)" % a, "-1 * 6 %s" % a, "%s / 6 %s" % (k, a)]
+            for ex in ["0", "1", "1.0", "(2-1)", "2", "0.5", "-1", "i"]:
+                out += ["6 %s ^ %s" % (a, ex), "(6 %s) ^ %s" % (a, ex), "%s ^ 6 %s" % (ex, a), "6 %s %% %s" % (a, ex)]
+            out += ["-(i * 5 %s)" % a, "-((1+2*i) * 3 %s)" % a, "(i * 5 %s) + (-(i * 5 %s))" % (a, a), "-((2+3*i) as %s)" % a,
+                    "-(-(2 %s))" % a, "-(2 %s) + 2 %s" % (a, a), "(1+i) * 2 %s - (1+i) * 2 %s" % (a, a)]
             out += ["6 %s %% 2" % a, "6 %s ^ 2" % a, "√(4 %s)" % a, "(3 %s)!" % a, "|3 %s|" % a, "⌈3.5 %s⌉" % a, "⌊3.5 %s⌋" % a,
                     "2 %s * 3 %s" % (a, a), "2 %s / 3 %s" % (a, a), "(2 %s)" % a, "2 %s + 1" % a, "1 - 2 %s" % a]
     out += ["1 m + 1 kg", "1 kg - 1 B", "1 B + 1 °C", "1 km * 1 kg", "1 m / 1 s", "2 °C + 3 °C", "2 °F * 2", "-(5 °C)"]
@@ -181,6 +185,16 @@ def rand_matrix(rng, r, c, complex_=False, ints=True):
     return "[" + ";".join(",".join(entry() for _ in range(c)) for _ in range(r)) + "]"
 
 
+def shape_pair_exprs(maxdim=4):
+    out = []
+    shapes = [s for s in MATS if max(s) <= maxdim]
+    for sa in shapes:
+        for sb in shapes:
+            for op in ["+", "-", "*", "dot", "cross", "/", "•", "×"]:
+                out.append("%s %s %s" % (MATS[sa][0], op, MATS[sb][0]))
+    return out
+
+
 def matrix_exprs(rng, quick):
     out = []
     shapes = [s for s in MATS if max(s) <= (4 if quick else 5)]
@@ -206,6 +220,34 @@ def matrix_exprs(rng, quick):
             out += ["determinant(%s * %s) - determinant(%s) * determinant(%s)" % (a, b, a, b),
                     "transpose(%s * %s) - transpose(%s) * transpose(%s)" % (a, b, b, a),
                     "%s * inverse(%s)" % (a, a), "determinant(%s)" % a, "inverse(%s)" % b, "%s * %s" % (a, b)]
+    # zero patterns: every 3x3 matrix over {0,1} (512), a sample of 4x4 ones, and banded / triangular / Hessenberg shapes
+    import itertools as _it
+    for bits in _it.product("01", repeat=9):
+        m = "[%s,%s,%s;%s,%s,%s;%s,%s,%s]" % bits
+        out += ["determinant(%s)" % m, "inverse(%s)" % m]
+    for _ in range(150 if quick else 3000):
+        n = rng.choice([3, 4, 4, 5]) if not quick else rng.choice([3, 4, 4])
+        style = rng.choice(["sparse", "tri", "hess", "upper", "lower", "perm"])
+        def ent(i, j):
+            v = rng.randrange(1, 9) * rng.choice([1, -1])
+            if style == "sparse":
+                return v if rng.random() < 0.4 else 0
+            if style == "tri":
+                return v if abs(i - j) <= 1 else 0
+            if style == "hess":
+                return v if i <= j + 1 else 0
+            if style == "upper":
+                return v if i <= j else 0
+            if style == "lower":
+                return v if i >= j else 0
+            return 0
+        rows = [[ent(i, j) for j in range(n)] for i in range(n)]
+        if style == "perm":
+            perm = list(range(n)); rng.shuffle(perm)
+            for i in range(n):
+                rows[i][perm[i]] = rng.choice([1, 1, -1, 2])
+        m = "[" + ";".join(",".join(str(x) for x in r) for r in rows) + "]"
+        out += ["determinant(%s)" % m, "inverse(%s)" % m, "%s * inverse(%s)" % (m, m)]
     for _ in range(20 if quick else 200):
         u = rand_matrix(rng, 1, 3, complex_=rng.random() < 0.3)
         v = rand_matrix(rng, 1, 3)
